@@ -35,6 +35,8 @@ REVERT_TARGETS = {
     "ce57551": ["C17"], "86868c5": ["C04"], "32ac457": ["C04"], "a0899d1": ["C10"], "448bbba": ["C10"],
     "68693ca": ["C05"], "0be4aa4": ["C10"], "4e5b07e": ["C11"], "7c3cdbd": ["C02"], "1d85807": ["C06"],
     "7670dc1": ["C15"], "ded7f71": ["C05", "C09"], "80fcf3f": ["C07", "C10"],
+    "d4b94b2": ["C16"], "bf995d7": ["C19"], "3c101ad": ["C12"], "adcf901": ["C11"], "1592ea1": ["C11"],
+    "cc948ef": ["C04", "C01", "C08"], "e8ae21e": ["C19"],
 }
 
 
